@@ -12,9 +12,21 @@
      for each pair (id?, off?) of numbers[..len]:
         id = chunk[0]?; offset = first_offset + chunk[1]? as usize;
         if offset >= content.len() { skip }
-        object = parser::direct_object(content[offset..])?     // a parse error skips the pair
+        if spent > content.len() * MAX_MEMBER_OVERLAP { skip }  // see below
+        rest = content[offset..]; parsed = parser::direct_object_len(rest)
+        spent += match parsed { Some((_, n)) => n, None => rest.len() }
+        object = parsed?.0                                     // a parse error skips the pair
         ((id, 0), object)
      collected into a BTreeMap (a later pair with the same id replaces an earlier one)
+     if spent > content.len() * MAX_MEMBER_OVERLAP { Err(InvalidObjectStream) }     // ObjectStream::new around `members`
+
+   The overlap limit (repair of C04-objstm-shared-offsets): every member is charged the bytes its object spans (white
+   space after it included), or everything after its offset when no object starts there; `spent` is the sum (an
+   AtomicUsize: the pairs run on rayon workers).  A member is skipped once the sum is above the limit -- which is not
+   observable: the sum only grows, so it ends above the limit exactly when the sum over ALL pairs is above it, and then
+   the result is the error whatever was skipped.  The model therefore charges every pair and tests the total; the
+   skipping matters for the cost only (Model/SafeObjStm.v).  (`fetch_add` wraps at 2^64: with the skipping the running
+   sum stays below limit + workers * |content|, so it does not wrap for contents below 2^60 bytes.)
 
    Rust-std behaviour modelled exactly because it decides the result:
    * str::from_utf8 (Model/Utf.v utf8_decode: well-formed UTF-8, no surrogates, no overlong forms);
@@ -23,7 +35,7 @@
      empty pieces are dropped;
    * u32::from_str: an optional '+', then one or more ASCII digits, value at most 2^32-1
      (a '-' is an invalid digit for an unsigned type; "+" alone and "" are errors). *)
-From LV Require Import Base.Bytes Base.Sx Model.Obj Model.Writer Model.Parser Model.Utf Gen.Lex.
+From LV Require Import Base.Bytes Base.Sx Model.Obj Model.Writer Model.Parser Model.Utf Gen.Lex Gen.ObjStmC.
 
 Local Open Scope N_scope.
 
@@ -72,7 +84,7 @@ Inductive oserr :=
 | OeObjectType         (* First or N not an integer *)
 | OeNumericCast        (* First negative *)
 | OeInvalidOffset      (* First beyond the content *)
-| OeInvalidObjectStream. (* index block is not UTF-8 *)
+| OeInvalidObjectStream. (* index block is not UTF-8; the members overlap beyond the limit *)
 Inductive osres (A : Type) := OsOk (a : A) | OsErr (e : oserr).
 Arguments OsOk {A} a.
 Arguments OsErr {A} e.
@@ -96,6 +108,32 @@ Definition objstm_entry (content : bytes) (first : N) (p : option N * option N) 
          end
   | _ => None
   end.
+
+(* parser::direct_object_len: the object and the number of bytes it spans (the white space after it included) *)
+Definition parse_direct_object_len (s : bytes) : option (obj * N) :=
+  match direct_object (fuel_for s) s with
+  | POk o r => Some (o, N.of_nat (length s - length r))
+  | _ => None
+  end.
+
+(* what the closure adds to `spent` for one pair *)
+Definition objstm_charge (content : bytes) (first : N) (p : option N * option N) : N :=
+  match p with
+  | (Some _, Some off) =>
+    let offset := first + off in
+    if N.of_nat (length content) <=? offset then 0
+    else let rest := drop (N.to_nat offset) content in
+         match parse_direct_object_len rest with
+         | Some (_, n) => n
+         | None => N.of_nat (length rest)
+         end
+  | _ => 0
+  end.
+
+Definition objstm_spent (content : bytes) (first : N) (ps : list (option N * option N)) : N :=
+  fold_left (fun a p => a + objstm_charge content first p) ps 0.
+
+Definition objstm_limit (content : bytes) : N := N.of_nat (length content) * MAX_MEMBER_OVERLAP.
 
 Definition get_i64 (d : dict) (k : bytes) : osres Z :=
   match dict_get d k with
@@ -124,6 +162,8 @@ Definition objstm_plain (d : dict) (content : bytes) : osres objmap :=
             match get_i64 d K_N with
             | OsErr e => OsErr e
             | OsOk _ =>
+              if objstm_limit content <? objstm_spent content first (pairs_of numbers) then OsErr OeInvalidObjectStream
+              else
               OsOk (fold_left (fun m p => match objstm_entry content first p with
                                           | Some (id, o) => insert m id o
                                           | None => m
